@@ -43,6 +43,11 @@ enum Case {
     /// first: 0 bare answered, 1 prefixed answered, 2 prefixed NOT answered, 3 degenerate [id, ""] (rejected),
     /// 4 prefixed, reply attempted after the requester's connection failed writes
     RepTwoStep { first: u8, first_prefix: u8, second_prefix: u8 },
+    /// a history on ONE real REQ socket with two echo peers (identities ID0, ID1): steps
+    /// 0 = request/reply cycle, 1/2 = peer 0/1 closes its connection, 3/4 = peer 0/1's connection starts failing writes,
+    /// 5 = peer 0 connects again under the same identity. Every request that send() accepts must go out as exactly
+    /// ["", payload] on exactly one connection and its echoed reply must come back as the payload.
+    ReqHistory { steps: Vec<u8> },
 }
 
 #[derive(Clone, Debug, PartialEq)]
@@ -66,6 +71,7 @@ fn case_json(c: &Case) -> Value {
         Case::RepDegenerate { frames } => json!({"case":"repdeg","frames":frames.iter().map(|f| rc::hex(f)).collect::<Vec<_>>()}),
         Case::BackToBack { kinds } => json!({"case":"b2b","kinds":kinds}),
         Case::RepTwoStep { first, first_prefix, second_prefix } => json!({"case":"rep2","first":first,"first_prefix":first_prefix,"second_prefix":second_prefix}),
+        Case::ReqHistory { steps } => json!({"case":"reqhist","steps":steps}),
     }
 }
 
@@ -84,6 +90,7 @@ fn case_from(v: &Value) -> Option<Case> {
         },
         "rep" => Case::RepSide { kinds: kinds(), prefix: v["prefix"].as_u64()? as u8 },
         "repdeg" => Case::RepDegenerate { frames: v["frames"].as_array()?.iter().map(|f| rc::unhex(f.as_str().unwrap_or(""))).collect() },
+        "reqhist" => Case::ReqHistory { steps: v["steps"].as_array()?.iter().map(|x| x.as_u64().unwrap_or(0) as u8).collect() },
         "rep2" => Case::RepTwoStep { first: v["first"].as_u64()? as u8, first_prefix: v["first_prefix"].as_u64()? as u8, second_prefix: v["second_prefix"].as_u64()? as u8 },
         _ => Case::BackToBack { kinds: kinds() },
     })
@@ -94,7 +101,8 @@ fn show(m: &[Vec<u8>]) -> String {
 }
 
 fn scenario(case: &Case) -> Verdict {
-    world::reset(world::WorldCfg { nested_env: false, yields: false, select: false, policy: 0, coop: false });
+    let free = matches!(case, Case::ReqHistory { .. });
+    world::reset(world::WorldCfg { nested_env: free, yields: free, select: false, policy: 0, coop: false });
     let viol = std::rc::Rc::new(std::cell::RefCell::new(Vec::<(String, String)>::new()));
     let obs = std::rc::Rc::new(std::cell::RefCell::new(Vec::<String>::new()));
     let (viol2, obs2) = (viol.clone(), obs.clone());
@@ -335,6 +343,97 @@ fn scenario(case: &Case) -> Verdict {
                 drop(s);
             });
         }
+        Case::ReqHistory { steps } => {
+            let mut conns: Vec<e3::RawConn> = Vec::new();
+            for p in 0..2 {
+                let c = e3::raw_conn(&format!("P{}", p));
+                c.send(&rc::handshake("REP", Some(format!("ID{}", p).as_bytes())));
+                e3::make_echo_peer(c);
+                conns.push(c);
+            }
+            let names = ["request/reply", "peer 0 closes", "peer 1 closes", "peer 0's connection fails writes", "peer 1's connection fails writes", "peer 0 reconnects under its identity"];
+            let hist: Vec<&str> = steps.iter().map(|s| names[*s as usize]).collect();
+            let hist = hist.join(", ");
+            world::spawn_app("app", async move {
+                let mut s = AnySocket::new(Ty::Req, None);
+                for c in &conns {
+                    let _ = e3::attach_raw(s.backend(), *c).await;
+                }
+                // current connection of peer 0 / peer 1, plus every connection ever made
+                let mut cur = [conns[0], conns[1]];
+                let mut all = conns.clone();
+                let mut reqno = 0usize;
+                let mut all_steps = steps.clone();
+                all_steps.extend([0, 0, 0]);
+                for st in all_steps {
+                    match st {
+                        1 | 2 => {
+                            let c = cur[(st - 1) as usize];
+                            world::set_sink(c.from_lib, Box::new(|_| vec![]));
+                            c.eof();
+                        }
+                        3 | 4 => world::set_wmode(cur[(st - 3) as usize].from_lib, world::WMode::Fail(std::io::ErrorKind::BrokenPipe)),
+                        5 => {
+                            let c = e3::raw_conn(&format!("P0r{}", all.len()));
+                            c.send(&rc::handshake("REP", Some(b"ID0")));
+                            e3::make_echo_peer(c);
+                            let r = e3::attach_raw(s.backend(), c).await;
+                            obs2.borrow_mut().push(format!("reconnect -> {}", e3::ok_or_err(&r)));
+                            cur[0] = c;
+                            all.push(c);
+                        }
+                        _ => {
+                            reqno += 1;
+                            let pl = vec![format!("q{}", reqno).into_bytes(), vec![], b"z".to_vec()];
+                            let before: Vec<usize> = all.iter().map(|c| c.tap().len()).collect();
+                            let r = s.send(msg(&pl)).await;
+                            obs2.borrow_mut().push(format!("send#{} -> {}", reqno, e3::ok_or_err(&r)));
+                            let grown: Vec<(usize, Vec<u8>)> = all.iter().enumerate().filter_map(|(i, c)| { let t = c.tap(); if t.len() > before[i] { Some((i, t[before[i]..].to_vec())) } else { None } }).collect();
+                            match &r {
+                                Ok(()) => {
+                                    let mut want = vec![vec![]];
+                                    want.extend(pl.clone());
+                                    let ok = grown.len() == 1 && grown[0].1 == rc::encode_message(&want);
+                                    if !ok {
+                                        viol2.borrow_mut().push((
+                                            "req-history/wire-envelope".into(),
+                                            format!("REQ with two peers after [{}]: send#{}({}) returned Ok but the wire carries {:?}, expected exactly {} on one connection", hist, reqno, show(&pl), grown.iter().map(|(i, b)| format!("conn{}: {:?}", i, rc::decode_stream(b, false).messages().iter().map(|m| show(m)).collect::<Vec<_>>())).collect::<Vec<_>>(), show(&want)),
+                                        ));
+                                        return;
+                                    }
+                                }
+                                Err(zeromq::ZmqError::ReturnToSender { message, .. }) => {
+                                    if crate::e1::frames_of(message) != pl {
+                                        viol2.borrow_mut().push((
+                                            "req-history/returned-message-modified".into(),
+                                            format!("REQ with two peers after [{}]: send#{}({}) failed and handed back {}", hist, reqno, show(&pl), show(&crate::e1::frames_of(message))),
+                                        ));
+                                        return;
+                                    }
+                                    continue;
+                                }
+                                Err(_) => continue,
+                            }
+                            let r = world::until_idle(s.recv()).await;
+                            let rs = r.as_ref().map(e3::show_result).unwrap_or_else(|| "pending".into());
+                            obs2.borrow_mut().push(format!("recv#{} -> {}", reqno, rs));
+                            if rs.starts_with("Ok") && rs != format!("Ok{}", show(&pl)) {
+                                viol2.borrow_mut().push((
+                                    "req-history/reply-not-stripped-exactly".into(),
+                                    format!("REQ with two peers after [{}]: the echo of request {} came back as {}", hist, show(&pl), rs),
+                                ));
+                                return;
+                            }
+                            if r.is_none() {
+                                break;
+                            }
+                        }
+                    }
+                }
+                world::wait_cond("never").await;
+                drop(s);
+            });
+        }
     }
     let end = world::run(e3::HORIZON);
     let mut v = Verdict::default();
@@ -409,6 +508,28 @@ pub fn run(tier: Tier, replay: Option<String>) -> i32 {
             }
         }
     }
+    // REQ histories: every sequence of 1..=L steps
+    let hl = tier.pick(5usize, 6usize);
+    let mut n_hist = 0u64;
+    for len in 1..=hl {
+        let mut idx = vec![0u8; len];
+        loop {
+            cases.push(Case::ReqHistory { steps: idx.clone() });
+            n_hist += 1;
+            let mut i = 0;
+            while i < len {
+                idx[i] += 1;
+                if idx[i] < 6 {
+                    break;
+                }
+                idx[i] = 0;
+                i += 1;
+            }
+            if i == len {
+                break;
+            }
+        }
+    }
     let id = b"I".to_vec();
     for f in [
         vec![vec![]],
@@ -426,7 +547,12 @@ pub fn run(tier: Tier, replay: Option<String>) -> i32 {
         .enumerate()
         .map(|(i, c)| {
             let c2 = c.clone();
-            e3::job(format!("C07/{}/{}", i, case_json(&c)), case_json(&c), 0, 4, move || scenario(&c2))
+            let bound = match &c {
+                Case::ReqHistory { steps } if steps.len() <= 3 => tier.pick(1, 2),
+                Case::ReqHistory { steps } if steps.len() <= 4 => tier.pick(0, 1),
+                _ => 0,
+            };
+            e3::job(format!("C07/{}/{}", i, case_json(&c)), case_json(&c), bound, 200_000, move || scenario(&c2))
         })
         .collect();
     e3::run_jobs_into(&mut ck, jobs, false);
@@ -435,9 +561,10 @@ pub fn run(tier: Tier, replay: Option<String>) -> i32 {
     ck.cov("transitions", ex);
     ck.cov("traces_validated_against_impl", ex);
     ck.cov("payload_shapes", payloads.len() as u64);
+    ck.cov("req_histories", n_hist);
     ck.cov("exhaustive", true);
-    ck.cov("explanation", format!("complete product: {} payload shapes (1..4 frames, each empty / 1 byte / 256 bytes{}) x (A) real REQ against a raw REP peer (wire after send must be exactly [\"\",payload]; reply [\"\",r] must come back as r; 4 malformed reply shapes must never be handed over as Ok), (B) raw REQ/DEALER/ROUTER-chain peer with 0..3 identity frames (1 B / 255 B) against a real REP (recv = frames after the first empty frame; reply on the wire = prefix + \"\" + reply), (C) real REQ <-> real REP back to back; plus 6 degenerate requests (delimiter-only, single frame, delimiter last) that must never surface as a zero-frame message; plus two-step histories on ONE REP socket (first request bare / routed, answered / left unanswered / rejected / its reply failing on a broken connection; second request bare or routed): the reply to the second request must carry exactly the second request's envelope. states = cases, transitions = executions (sequential code: one schedule per case).", payloads.len(), tier.pick("", " / 70000 bytes")));
-    ck.assume("envelope handling is sequential per socket: no scheduling choice influences it (one execution per case)");
+    ck.cov("explanation", format!("complete product: {} payload shapes (1..4 frames, each empty / 1 byte / 256 bytes{}) x (A) real REQ against a raw REP peer (wire after send must be exactly [\"\",payload]; reply [\"\",r] must come back as r; 4 malformed reply shapes must never be handed over as Ok), (B) raw REQ/DEALER/ROUTER-chain peer with 0..3 identity frames (1 B / 255 B) against a real REP (recv = frames after the first empty frame; reply on the wire = prefix + \"\" + reply), (C) real REQ <-> real REP back to back; plus 6 degenerate requests (delimiter-only, single frame, delimiter last) that must never surface as a zero-frame message; plus two-step histories on ONE REP socket (first request bare / routed, answered / left unanswered / rejected / its reply failing on a broken connection; second request bare or routed): the reply to the second request must carry exactly the second request's envelope; plus every history of 1..={} steps on ONE REQ socket with two echo peers over {{request/reply, peer 0/1 closes, peer 0/1's connection fails writes, peer 0 reconnects under its identity}} followed by three more request/reply cycles: every accepted request goes out as exactly [\"\", payload] on exactly one connection, a refused one is handed back unmodified, every echoed reply comes back as the payload. states = cases, transitions = executions (sequential code: one schedule per case).", payloads.len(), tier.pick("", " / 70000 bytes"), hl));
+    ck.assume("envelope handling is sequential per socket: no scheduling choice influences it (one execution per case), except in the REQ histories, whose short members (<= 3 steps; thorough <= 4) are also run under every schedule with 1 (thorough 2, resp. 1) deviations");
     ck.assume("requests with no empty frame at all are not judged (the statement does not define them)");
     ck.conclude()
 }
